@@ -373,6 +373,66 @@ func genTable(cfg Config, emit func(string, bool, []string)) {
 			emit("table long-quiet", true, g.ops)
 			continue
 		}
+		if c%10 == 3 {
+			// restructuring case at table level: primary keys a, abc, abd (+ x outside): deleting
+			// "a" pulls the inner node below it up one level; further writes below it in the SAME
+			// transaction must still close the watch channels handed out by the snapshot before
+			g.add("wtxn m")
+			ord := 1
+			put := func(id string, val int) {
+				g.add("ins m %s %d 0 - - 0 %d", hx([]byte(id)), val, ord)
+				ord++
+			}
+			put("x", 1)
+			put("a", 2)
+			put("abc", 3)
+			if r.IntN(4) != 0 {
+				put("abd", 4)
+			}
+			g.add("commit")
+			g.nsnap++
+			for round := 0; round < 3; round++ {
+				g.add("rtxn")
+				g.nsnap++
+				h := fmt.Sprintf("s%d", g.nsnap-1)
+				for _, q := range []string{"a", "ab", "abe", "abc", "abd"} {
+					g.add("prefixw %s m id %s", h, hx([]byte(q)))
+					g.add("getw %s m id %s", h, hx([]byte(q)))
+				}
+				g.add("lbw %s m id %s", h, hx([]byte("ab")))
+				g.add("allw %s m", h)
+				g.add("wtxn m")
+				g.add("del m %s", hx([]byte("a")))
+				for i := 1 + r.IntN(3); i > 0; i-- {
+					switch r.IntN(5) {
+					case 0:
+						put("abe", 10+i)
+					case 1:
+						g.add("del m %s", hx([]byte("abd")))
+					case 2:
+						put("abc", 20+i)
+					case 3:
+						g.add("del m %s", hx([]byte("abc")))
+					case 4:
+						put("a", 30+i)
+					}
+				}
+				g.add("commit")
+				g.nsnap++
+				g.add("wtxn m")
+				put("a", 2)
+				put("abc", 3)
+				put("abd", 4)
+				g.add("del m %s", hx([]byte("abe")))
+				g.add("commit")
+				g.nsnap++
+			}
+			for sn := 0; sn < g.nsnap; sn++ {
+				g.sweep(fmt.Sprintf("s%d", sn), 3)
+			}
+			emit("table restructure", true, g.ops)
+			continue
+		}
 		if c%10 == 7 {
 			// threshold walker at table level: objects sharing a primary-key stem and one tag,
 			// removed one per transaction across the radix node size boundaries, with watches
@@ -380,6 +440,13 @@ func genTable(cfg Config, emit func(string, bool, []string)) {
 			top := []int{52, 19, 7}[r.IntN(3)]
 			g.add("wtxn m")
 			var ids []string
+			withStem := r.IntN(3) != 0
+			if withStem {
+				// the stem itself is a key (leaf inside the inner node) and a key outside
+				// the stem keeps that node off the root
+				g.add("ins m %s 777 0 x74 - 0 900", hx([]byte{'k'}))
+				g.add("ins m %s 778 0 - - 0 901", hx([]byte{'z'}))
+			}
 			for i := 0; i < top; i++ {
 				id := string([]byte{'k', byte(3*i + 1)})
 				ids = append(ids, id)
@@ -400,6 +467,7 @@ func genTable(cfg Config, emit func(string, bool, []string)) {
 				g.add("allw %s m", h)
 				g.add("getw %s m id %s", h, hx([]byte(ids[i])))
 				g.add("getw %s m id x6bfe", h)
+				g.add("getw %s m id x6b", h)
 				g.add("wtxn m")
 				if i%3 == 2 {
 					g.add("ins m %s %d 0 - - 0 %d", hx([]byte(ids[i])), 900+i, 60+i) // key-changing update: tag removed
@@ -1726,6 +1794,7 @@ func (e *tableExec) doWrite(o *Out, f []string) string {
 			_ = apply
 		} else if newRev != rt.rev {
 			o.Fail("C09", "revision-changed-by-rejected-op", map[string]string{"op": f[0], "err": gotErr}, fmt.Sprintf("table revision %d after rejected %s (%s), was %d", newRev, f[0], gotErr, rt.rev))
+			o.Fail("C03", "rejected-op-changed-state", map[string]string{"op": f[0], "what": "table-revision"}, fmt.Sprintf("rejected %s (%s) changed the table revision from %d to %d", f[0], gotErr, rt.rev, newRev))
 			rt.rev = newRev
 		}
 	}
@@ -1810,6 +1879,7 @@ func (e *tableExec) doDelete(o *Out, f []string) string {
 		} else {
 			if newRev != rt.rev {
 				o.Fail("C09", "revision-changed-by-rejected-op", map[string]string{"op": f[0], "err": gotErr, "existed": strconv.FormatBool(exists)}, fmt.Sprintf("table revision %d after no-op/rejected %s, was %d", newRev, f[0], rt.rev))
+				o.Fail("C03", "rejected-op-changed-state", map[string]string{"op": f[0], "what": "table-revision"}, fmt.Sprintf("no-op/rejected %s (%s) changed the table revision from %d to %d", f[0], gotErr, rt.rev, newRev))
 				rt.rev = newRev
 			}
 			if exists && !still && gotErr != "ok" {
